@@ -212,6 +212,34 @@ theorem clausePass_nar (ls : List Atom) (d : Doms) : Nar d (clausePass ls d) := 
   · exact Nar.none d
   · exact Nar.ite (Nar.postAtom _ _) (Nar.some d)
 
+theorem ttTaskAt_nar (holes : Bool) (cap : Int) (ts : List Task) (t : Int) (k : Task) (d : Doms) :
+    Nar d (ttTaskAt holes cap ts t k d) := by
+  unfold ttTaskAt
+  refine Nar.ite ?_ (Nar.some d)
+  refine Nar.bind (Nar.ite (Nar.setLb _ _ _) (Nar.some d)) (fun d1 => ?_)
+  refine Nar.bind (Nar.ite (Nar.setUb _ _ _) (Nar.some d1)) (fun d2 => ?_)
+  exact Nar.ite (Nar.keep _ _ _) (Nar.some d2)
+
+theorem ttTasksAt_nar (holes : Bool) (cap : Int) (ts : List Task) (t : Int) (sub : List Task) (d : Doms) :
+    Nar d (ttTasksAt holes cap ts t sub d) := by
+  induction sub generalizing d with
+  | nil => exact Nar.some d
+  | cons k r ih => simp only [ttTasksAt]; exact Nar.bind (ttTaskAt_nar _ _ _ _ _ _) (fun d1 => ih d1)
+
+theorem ttPoints_nar (holes : Bool) (cap : Int) (ts : List Task) (times : List Int) (d : Doms) :
+    Nar d (ttPoints holes cap ts times d) := by
+  induction times generalizing d with
+  | nil => exact Nar.some d
+  | cons t r ih =>
+    simp only [ttPoints]
+    refine Nar.ite (Nar.none d) (Nar.ite ?_ (ih d))
+    exact Nar.bind (ttTasksAt_nar _ _ _ _ _ _) (fun d1 => ih d1)
+
+theorem ttPass_nar (holes : Bool) (ts : List Task) (cap : Int) (d : Doms) : Nar d (ttPass holes ts cap d) := by
+  unfold ttPass
+  simp only []
+  exact Nar.ite (Nar.none d) (ttPoints_nar _ _ _ _ _)
+
 theorem pass_nar (p : PropInst) (d : Doms) : Nar d (p.pass d) := by
   induction p generalizing d with
   | linLe ts c => exact linLePass_nar _ _ _
@@ -222,6 +250,7 @@ theorem pass_nar (p : PropInst) (d : Doms) : Nar d (p.pass d) := by
   | div a b c => exact divPass_nar _ _ _ _
   | element i xs r => exact elementPass_nar _ _ _ _
   | clause ls => exact clausePass_nar _ _
+  | cumulative holes ts cap => exact ttPass_nar _ _ _ _
   | reified r q ih =>
     simp only [PropInst.pass]
     exact Nar.bind (Nar.ite (Nar.postAtom _ _) (Nar.some d)) (fun d1 => Nar.ite (ih d1) (Nar.some d1))
